@@ -1764,3 +1764,61 @@ Proof.
   split; [vm_compute; reflexivity|]. split; [apply nonl_dec; vm_compute; reflexivity|].
   split; [vm_compute; reflexivity|]. eexists. vm_compute. reflexivity.
 Qed.
+
+(* ================= 13. fragmentation independence between flush ticks ================= *)
+
+Lemma ops_text_reads : forall fs rest, ops_text (map OpRead fs ++ rest) = concat fs ++ ops_text rest.
+Proof.
+  induction fs as [|f fs IH]; intros rest; [reflexivity|].
+  cbn [map app ops_text concat]. rewrite IH, app_assoc. reflexivity.
+Qed.
+
+Lemma ops_text_script_of : forall fss rest, ops_text (script_of fss ++ rest) = concat (map (@concat N) fss) ++ ops_text rest.
+Proof.
+  induction fss as [|fs fss IH]; intros rest; [reflexivity|].
+  unfold script_of in *. cbn [flat_map map concat]. rewrite <- !app_assoc, ops_text_reads. cbn [app ops_text].
+  rewrite IH, app_assoc. reflexivity.
+Qed.
+
+Lemma no_flush_all_script_of : forall fss last, no_flush_all (script_of fss ++ map OpRead last).
+Proof.
+  intros fss last. apply Forall_app. split.
+  - unfold script_of. apply Forall_forall. intros o Ho. apply in_flat_map in Ho. destruct Ho as (fs & _ & Ho).
+    apply in_app_or in Ho. destruct Ho as [Ho|[<-|[]]]; [|discriminate].
+    apply in_map_iff in Ho. destruct Ho as (f & <- & _). discriminate.
+  - apply Forall_forall. intros o Ho. apply in_map_iff in Ho. destruct Ho as (f & <- & _). discriminate.
+Qed.
+
+Lemma spec_ops_script_of : forall test fss1 fss2 rest carry,
+  map (@concat N) fss1 = map (@concat N) fss2 ->
+  spec_ops test carry (script_of fss1 ++ rest) = spec_ops test carry (script_of fss2 ++ rest).
+Proof.
+  induction fss1 as [|fs1 fss1 IH]; intros fss2 rest carry H; destruct fss2 as [|fs2 fss2]; try discriminate; [reflexivity|].
+  cbn [map] in H. injection H as Hc Ht. unfold script_of in *. cbn [flat_map].
+  rewrite <- !app_assoc, !spec_ops_reads, Hc. cbn [app spec_ops].
+  destruct (split_lines (carry ++ concat fs2)) as [ls t]. f_equal. apply IH. assumption.
+Qed.
+
+(* same text between the same flush ticks, any two ways of cutting it into reads: same records *)
+Lemma frag_independent_ticks_lemma : forall test min_buf limit b fss1 fss2 last1 last2,
+  test [] = false -> 1 <= limit -> 2 * b + 1 + limit <= Nat.max min_buf (limit * 3) ->
+  map (@concat N) fss1 = map (@concat N) fss2 -> concat last1 = concat last2 ->
+  seg_bound test b (concat (map (@concat N) fss1) ++ concat last1) ->
+  exists st1 st2 out,
+    run_ops test (script_of fss1 ++ map OpRead last1 ++ [OpFlushAll]) (new_mlr min_buf limit) [] = Ok (st1, out) /\
+    run_ops test (script_of fss2 ++ map OpRead last2 ++ [OpFlushAll]) (new_mlr min_buf limit) [] = Ok (st2, out).
+Proof.
+  intros test min_buf limit b fss1 fss2 last1 last2 Hnil Hl Hc Hf Hlast HB.
+  assert (HB1 : seg_bound test b (ops_text (script_of fss1 ++ map OpRead last1))).
+  { rewrite ops_text_script_of, <- (app_nil_r (map OpRead last1)), ops_text_reads. cbn [ops_text]. rewrite app_nil_r. exact HB. }
+  assert (HB2 : seg_bound test b (ops_text (script_of fss2 ++ map OpRead last2))).
+  { rewrite ops_text_script_of, <- (app_nil_r (map OpRead last2)), ops_text_reads. cbn [ops_text]. rewrite app_nil_r, <- Hf, <- Hlast. exact HB. }
+  destruct (script_stream_lemma test min_buf limit b _ Hnil Hl Hc (no_flush_all_script_of fss1 last1) HB1) as (st1 & H1).
+  destruct (script_stream_lemma test min_buf limit b _ Hnil Hl Hc (no_flush_all_script_of fss2 last2) HB2) as (st2 & H2).
+  rewrite <- app_assoc in H1, H2.
+  exists st1, st2, (spec_ops test [] (script_of fss1 ++ map OpRead last1 ++ [OpFlushAll])).
+  split; [exact H1|]. rewrite H2. f_equal. f_equal.
+  rewrite (spec_ops_script_of test fss2 fss1) by (symmetry; assumption).
+  rewrite (spec_ops_app test (script_of fss1) (map OpRead last2 ++ [OpFlushAll])), (spec_ops_app test (script_of fss1) (map OpRead last1 ++ [OpFlushAll])).
+  f_equal. rewrite !spec_ops_reads, Hlast. reflexivity.
+Qed.
